@@ -445,3 +445,42 @@ X.lemma_bit_segments_step = staticmethod(_lemma_bit_segments_step)
 X.lemma_prefix_slice = staticmethod(_lemma_prefix_slice)
 X.zeros = staticmethod(lambda ex, k: any_(zeros(toint(k))))
 X.pack8 = staticmethod(lambda ex, s: any_(pack8(z_of(s))))
+
+
+# ---- two's complement digits of an integer, least significant first to most: the recursion of X.690 8.3 "as few octets as
+# possible" before the sign octet is settled: digits(e) = digits(e >> 8) ++ [e & 255], nothing for 0 and -1
+sdigits = RecFunction('sdigits256', I, S)
+_e = Int('_e')
+RecAddDefinition(sdigits, [_e], If(z3.Or(_e == 0, _e == -1), Empty(S), Concat(sdigits(_e / 256), Unit(_e % 256))))
+
+
+def _sdigits(ex, e):
+    return any_(sdigits(toint(e)))
+
+
+def _lemma_sdigits_step(ex, e):
+    e = toint(e)
+    return Implies(Not(z3.Or(e == 0, e == -1)), sdigits(e) == Concat(sdigits(e / 256), Unit(e % 256)))
+
+
+def _lemma_be256_step(ex, m):
+    m = toint(m)
+    return Implies(m > 0, be256(m) == Concat(be256(m / 256), Unit(m % 256)))
+
+
+def _lemma_pow2_step(ex, k):
+    k = toint(k)
+    return Implies(k >= 0, pow2(k + 1) == 2 * pow2(k))
+
+
+X.sdigits = staticmethod(_sdigits)
+X.lemma_sdigits_step = staticmethod(_lemma_sdigits_step)
+X.lemma_be256_step = staticmethod(_lemma_be256_step)
+X.lemma_pow2_step = staticmethod(_lemma_pow2_step)
+
+
+def _lemma_sdigits_base(ex):
+    return And(sdigits(IntVal(0)) == Empty(S), sdigits(IntVal(-1)) == Empty(S))
+
+
+X.lemma_sdigits_base = staticmethod(_lemma_sdigits_base)
